@@ -73,7 +73,7 @@ PROPS = {
         "trusted": ["per-step trace of the real swap loop comes from the `verif` hook in swap_manager.rs; the emitted Traded event is not decoded here"],
     },
     "C07": {
-        "lean_modules": ["WP.Props.C07", "WP.Props.GrowthPath", "WP.Props.ReachGrowth"],
+        "lean_modules": ["WP.Props.C07", "WP.Props.GrowthPath", "WP.Props.ReachGrowth", "WP.Props.PositionFees"],
         "lean_support": ["WP.Props.Reach", "WP.Props.SwapPath", "WP.Props.FeePath", "WP.Props.PathBase"],
         "families": [("hist", 10000, 500000)],
         "history": True,
